@@ -213,10 +213,28 @@ def direction(repo: Repo) -> RuleRun:
 
     seen = {repr(t[2]): (t[0], t[1]) for t in out} if isinstance(out, list) else {}
     r.require(isinstance(out, list), "Frame.get_all_beams does not return a list")
-    # add_from_operation uses data[0], data[1] as vertex_1, vertex_2
+    # EdgeList.add_from_operation (abstract run): each beam (c1, c2, data) becomes add(vertices[c1], vertices[c2], data)
     afo = repo.func("lists.edge_list.EdgeList.add_from_operation")
-    uses_order = "vertices[corner_1]" in ast.unparse(afo.node) or "vertices[data[0]]" in ast.unparse(afo.node)
-    r.require(uses_order, "EdgeList.add_from_operation: vertex_1/vertex_2 are no longer taken from the beam's corner order")
+    added = []
+
+    def afo_hook(ev, call: ast.Call, name):
+        if attr_chain(call.func) == "self.add":
+            args = [ev.eval(x) for x in call.args]
+            added.append(args)
+            return Sym(f"edge({args[0]!r},{args[1]!r})")
+        if isinstance(call.func, ast.Attribute) and call.func.attr == "get_all_beams":
+            return [(3, 0, Sym("dataA")), (5, 6, Sym("dataB")), (2, 6, Sym("dataC"))]
+        return NO_MATCH
+
+    el = Obj("edge_list", cls=repo.cls("lists.edge_list.EdgeList"))
+    el.set("edges", [])
+    opx = Obj("operation")
+    opx.set("edges", Obj("frame"))
+    verts = [Sym(f"V{i}") for i in range(8)]
+    res_afo = _run(Evaluator(repo=repo, module=afo.module, call_hook=afo_hook), afo, [el, verts, opx])
+    want_added = [[Sym("V3"), Sym("V0"), Sym("dataA")], [Sym("V5"), Sym("V6"), Sym("dataB")], [Sym("V2"), Sym("V6"), Sym("dataC")]]
+    want_ret = [(3, 0, Sym("edge(V3,V0)")), (5, 6, Sym("edge(V5,V6)")), (2, 6, Sym("edge(V2,V6)"))]
+    r.check(added == want_added and res_afo == want_ret, afo, "beam (c1, c2, data) -> add(vertices[c1], vertices[c2], data), returned with its corners", f"EdgeList.add_from_operation turns beams [(3,0,A),(5,6,B),(2,6,C)] into add-calls {added} and returns {res_afo}: vertex order or payload no longer follow the beam's corner order", afo.node, key="add_from_operation")
     for a, b, payload in issued:
         want = defined(payload)
         if {a, b} != set(want):
